@@ -438,7 +438,196 @@ def t_isnot(text, relpath):
         _IsNot().visit(ast.parse(text))))
 
 
+# ---------------------------------------------------------------- withsplit
+class _WithSplit(ast.NodeTransformer):
+    """`with a, b: BODY` -> `with a: with b: BODY`;  `with a: with b: BODY`
+    (nothing else in the outer body) -> `with a, b: BODY`."""
+
+    def visit_With(self, node):
+        self.generic_visit(node)
+        if len(node.items) > 1:
+            inner = ast.With(items=node.items[1:], body=node.body)
+            return ast.With(items=node.items[:1], body=[inner])
+        if len(node.body) == 1 and isinstance(node.body[0], ast.With) and \
+                len(node.body[0].items) == 1:
+            return ast.With(items=node.items + node.body[0].items,
+                            body=node.body[0].body)
+        return node
+
+
+def t_withsplit(text, relpath):
+    return ast.unparse(ast.fix_missing_locations(
+        _WithSplit().visit(ast.parse(text))))
+
+
+# ------------------------------------------------------------------ argtemp
+def _simple_value(e):
+    """a name, constant or attribute chain: reading it has no effect"""
+    return isinstance(e, ast.Constant) or (
+        isinstance(e, ast.Name)) or (
+        isinstance(e, ast.Attribute) and _simple_value(e.value))
+
+
+class _ArgTemp(ast.NodeTransformer):
+    """`f(a.b, ...)` as a statement of its own (or `x = f(a.b, ...)`), with
+    `f` a plain attribute chain and the FIRST argument an attribute chain
+    ->  `_argN = a.b; f(_argN, ...)`."""
+
+    def __init__(self):
+        self.n = 0
+
+    def _rewrite(self, body):
+        out = []
+        for s in body:
+            call = None
+            if isinstance(s, ast.Expr) and isinstance(s.value, ast.Call):
+                call = s.value
+            elif isinstance(s, ast.Assign) and isinstance(
+                    s.value, ast.Call) and len(s.targets) == 1 and \
+                    isinstance(s.targets[0], ast.Name):
+                call = s.value
+            if call is not None and _simple_value(call.func) and \
+                    call.args and isinstance(call.args[0], ast.Attribute) \
+                    and _simple_value(call.args[0]) and not any(
+                        isinstance(a, ast.Starred) for a in call.args):
+                self.n += 1
+                name = '_arg%d' % self.n
+                out.append(ast.Assign(
+                    targets=[ast.Name(id=name, ctx=ast.Store())],
+                    value=call.args[0]))
+                call.args[0] = ast.Name(id=name, ctx=ast.Load())
+            out.append(s)
+        return out
+
+    def generic_visit(self, node):
+        super().generic_visit(node)
+        for field in ('body', 'orelse', 'finalbody'):
+            b = getattr(node, field, None)
+            if isinstance(b, list) and b and isinstance(b[0], ast.stmt):
+                setattr(node, field, self._rewrite(b))
+        return node
+
+    def visit_ClassDef(self, node):
+        # class bodies: only the methods
+        for i, s in enumerate(node.body):
+            if isinstance(s, (ast.FunctionDef, ast.AsyncFunctionDef)):
+                node.body[i] = self.visit(s)
+        return node
+
+    def visit_Module(self, node):
+        for i, s in enumerate(node.body):
+            if isinstance(s, (ast.FunctionDef, ast.AsyncFunctionDef,
+                              ast.ClassDef)):
+                node.body[i] = self.visit(s)
+        return node
+
+
+def t_argtemp(text, relpath):
+    return ast.unparse(ast.fix_missing_locations(
+        _ArgTemp().visit(ast.parse(text))))
+
+
+# ------------------------------------------------------------------ ternary
+class _Ternary(ast.NodeTransformer):
+    """`if c: x = A` / `else: x = B` (one simple name, both branches)  ->
+    `x = A if c else B`;  `x = A if c else B` as a statement  ->  the
+    if/else statement."""
+
+    def visit_If(self, node):
+        self.generic_visit(node)
+        if len(node.body) == 1 and len(node.orelse) == 1:
+            a, b = node.body[0], node.orelse[0]
+            if isinstance(a, ast.Assign) and isinstance(b, ast.Assign) and \
+                    len(a.targets) == 1 and len(b.targets) == 1 and \
+                    isinstance(a.targets[0], ast.Name) and isinstance(
+                        b.targets[0], ast.Name) and \
+                    a.targets[0].id == b.targets[0].id:
+                return ast.Assign(targets=a.targets, value=ast.IfExp(
+                    test=node.test, body=a.value, orelse=b.value))
+        return node
+
+    def visit_Assign(self, node):
+        if isinstance(node.value, ast.IfExp) and len(node.targets) == 1 \
+                and isinstance(node.targets[0], ast.Name):
+            t = node.targets[0]
+            return ast.If(
+                test=node.value.test,
+                body=[ast.Assign(targets=[ast.Name(id=t.id, ctx=ast.Store())],
+                                 value=node.value.body)],
+                orelse=[ast.Assign(
+                    targets=[ast.Name(id=t.id, ctx=ast.Store())],
+                    value=node.value.orelse)])
+        return node
+
+
+def t_ternary(text, relpath):
+    return ast.unparse(ast.fix_missing_locations(
+        _Ternary().visit(ast.parse(text))))
+
+
+# ------------------------------------------------------------------- kwcall
+class _KwCall(ast.NodeTransformer):
+    """`self.m(a, b)` with `m` a method defined in the same class with plain
+    positional parameters  ->  `self.m(p1=a, p2=b)` (evaluation order is
+    unchanged; a subclass overriding `m` with other parameter names would
+    make this unsafe -- ZODB has none for the methods concerned, and the
+    transformation is validated against the full test suite)."""
+
+    def __init__(self, tree):
+        self.sig = {}
+        # methods overridden anywhere in the module under the same name are
+        # left alone
+        seen = {}
+        for c in ast.walk(tree):
+            if isinstance(c, ast.ClassDef):
+                for f in c.body:
+                    if isinstance(f, ast.FunctionDef):
+                        seen.setdefault(f.name, []).append(f)
+        for name, fs in seen.items():
+            if len(fs) != 1:
+                continue
+            f = fs[0]
+            a = f.args
+            if a.vararg or a.kwarg or a.posonlyargs or a.kwonlyargs or \
+                    not a.args or a.args[0].arg != 'self':
+                continue
+            self.sig[name] = [x.arg for x in a.args[1:]]
+        self.cls = None
+
+    def visit_ClassDef(self, node):
+        old, self.cls = self.cls, node
+        self.generic_visit(node)
+        self.cls = old
+        return node
+
+    def visit_Call(self, node):
+        self.generic_visit(node)
+        if self.cls is None:
+            return node
+        own = {f.name for f in self.cls.body
+               if isinstance(f, ast.FunctionDef)}
+        fn = node.func
+        if isinstance(fn, ast.Attribute) and isinstance(fn.value, ast.Name) \
+                and fn.value.id == 'self' and fn.attr in own and \
+                fn.attr in self.sig and node.args and not node.keywords and \
+                not any(isinstance(a, ast.Starred) for a in node.args) and \
+                len(node.args) <= len(self.sig[fn.attr]) and \
+                not fn.attr.startswith('__'):
+            names = self.sig[fn.attr]
+            node.keywords = [ast.keyword(arg=names[i], value=a)
+                             for i, a in enumerate(node.args)]
+            node.args = []
+        return node
+
+
+def t_kwcall(text, relpath):
+    tree = ast.parse(text)
+    return ast.unparse(ast.fix_missing_locations(_KwCall(tree).visit(tree)))
+
+
 TRANSFORMS = {
+    'kwcall': t_kwcall,
+    'withsplit': t_withsplit, 'argtemp': t_argtemp, 'ternary': t_ternary,
     'reformat': t_reformat, 'rename': t_rename, 'flipcmp': t_flipcmp,
     'invertif': t_invertif, 'demorgan': t_demorgan, 'augassign': t_augassign,
     'lockstmt': t_lockstmt, 'tempret': t_tempret,
